@@ -110,6 +110,17 @@ func TestSys(t *testing.T) {
 		}
 		for i, s := range c.Steps {
 			w := worlds[s.Node]
+			if s.Stim.Kind == "reopen" { // the node's process stops and starts again over the same datastore (validators registered again)
+				w.n.Stop()
+				n2, err := kit.NewMgrNode(s.Node, kit.NewRecDSFrom(w.n.DS.Snapshot()), []string{"vt"})
+				if err != nil {
+					o.Err = "reopen: " + err.Error()
+					break
+				}
+				w.n = n2
+				o.Steps = append(o.Steps, sysStepObs{Node: s.Node, Obs: StepObs{I: i + 1, Stim: normStim(s.Stim), Reply: kit.NoMsg(), T: emptyChanObs(), Others: []ChanObs{}, Net: []kit.NetCall{}, Tr: []kit.TCall{}, Val: []kit.VCall{}}})
+				continue
+			}
 			so := w.step(i+1, s.Stim)
 			o.Steps = append(o.Steps, sysStepObs{Node: s.Node, Obs: so})
 		}
